@@ -69,8 +69,8 @@ TRIAGE_RULES = [
     ("rustemo::glr::parser::GlrParser::reducer/index/*", INV, "parents[0] / parents[len-1] on the !parents.is_empty() branch; possibilities[0]: every stored Parent has >= 1 possibility"),
     ("rustemo::glr::parser::GlrParser::reducer/overflow-sub/*", INV, "parents.len() - 1 on the non-empty branch"),
     ("rustemo::glr::parser::GlrParser::reducer/refcell/*", INV, "borrows of possibilities/children are statement-local; no overlapping borrow_mut of the same cell"),
-    ("rustemo::glr::parser::GlrParser::reducer/panic/", INV, "Action::Error arm: both table layouts strip Error from action lists (C08-R1)"),
-    ("rustemo::glr::parser::GlrParser::find_reduction_paths/debug_assert/", INV, "ReductionStart::Node is built iff length == 0 at all construction sites (C03-R3)"),
+    ("rustemo::glr::parser::GlrParser::reducer/panic/*", INV, "Action::Error arm: both table layouts strip Error from action lists (C08-R1)"),
+    ("rustemo::glr::parser::GlrParser::find_reduction_paths/debug_assert/*", INV, "ReductionStart::Node is built iff length == 0 at all construction sites (C03-R3)"),
     ("rustemo::glr::parser::GlrParser::find_reduction_paths/overflow-sub/*", INV, "Edge-based reductions have length >= 1 (C03-R3)"),
     ("rustemo::glr::parser::GlrParser::create_forest/refcell/*", INV, "shared borrow after parsing finished"),
     ("rustemo::glr::parser::GlrParser::make_error/unwrap/*", INV, "the frontier loop runs at least once and records a non-empty base (C12-R4)"),
@@ -84,12 +84,12 @@ TRIAGE_RULES = [
     ("rustemo::glr::gss::Tree::children/div-zero/", INV, "factor is a product of solution counts of stored parents, each >= 1 (every Parent has >= 1 possibility; Empty is never stored)"),
     ("rustemo::glr::gss::Tree::children/unwrap/*", INV, "index decoding consistent with counting (not decided, see C03)"),
     ("rustemo::glr::gss::Tree::find_tree_root/bounds/*", INV, "roots[root_idx]: emptiness check first, root_idx < len re-checked before each use"),
-    ("<rustemo::glr::gss::SPPFTree* as rustemo::context::Context*>::state/panic/", INV, "only span() and layout_ahead() are ever called on an SPPFTree (C15-R2g)"),
-    ("<rustemo::glr::gss::SPPFTree* as rustemo::context::Context*>::position/panic/", INV, "as above"),
-    ("<rustemo::glr::gss::SPPFTree* as rustemo::context::Context*>::span/panic/", INV, "SPPFTree::Empty is never stored in a possibilities list"),
-    ("<rustemo::glr::gss::SPPFTree* as rustemo::context::Context*>::layout_ahead/panic/", INV, "as above"),
+    ("<rustemo::glr::gss::SPPFTree* as rustemo::context::Context*>::state/panic/*", INV, "only span() and layout_ahead() are ever called on an SPPFTree (C15-R2g)"),
+    ("<rustemo::glr::gss::SPPFTree* as rustemo::context::Context*>::position/panic/*", INV, "as above"),
+    ("<rustemo::glr::gss::SPPFTree* as rustemo::context::Context*>::span/panic/*", INV, "SPPFTree::Empty is never stored in a possibilities list"),
+    ("<rustemo::glr::gss::SPPFTree* as rustemo::context::Context*>::layout_ahead/panic/*", INV, "as above"),
     # ---- lexer / input
-    ("rustemo::lexer::TokenRecognizer::recognize/panic/", INV, "default method: every generated recogniser overrides it (C15-R2h)"),
+    ("rustemo::lexer::TokenRecognizer::recognize/panic/*", INV, "default method: every generated recogniser overrides it (C15-R2h)"),
     ("<rustemo::lexer::TokenIterator* as core::iter::traits::iterator::Iterator>::next/index/param(self).token_recognizers*", INV,
      "under `self.index < len` in the same condition"),
     ("<rustemo::lexer::TokenIterator* as core::iter::traits::iterator::Iterator>::next/index/param(self).input*", INV,
